@@ -68,6 +68,18 @@ M = [
   '\tif prev := r.extensionsByMessage[message][field]; prev != nil {', '\tif prev := r.extensionsByMessage[message][field]; prev != nil && prev == xt {'),
  ('c33-nested-enumvalue-missed', 'reflect/protoregistry/registry.go',
   '\t\tfor i := md.Enums().Len() - 1; i >= 0; i-- {', '\t\tfor i := md.Enums().Len() - 1; i > 0; i-- {'),
+ # ---- C16
+ ('c16-size-trusts-cache', 'internal/impl/encode.go',
+  '\tif opts.UseCachedSize() && mi.sizecacheOffset.IsValid() {', '\tif mi.sizecacheOffset.IsValid() {'),
+ ('c16-append-trusts-cache', 'proto/encode.go',
+  '\t\tif methods.Size != nil {\n\t\t\tsout :=', '\t\tif methods.Size != nil && cap(b) > 0 {\n\t\t\tin.Flags |= protoiface.MarshalUseCachedSize\n\t\t} else if methods.Size != nil {\n\t\t\tsout :='),
+ # ---- C15
+ ('c15-no-reset-on-empty-input', 'proto/decode.go',
+  '\tif !o.Merge {\n\t\tReset(m.Interface())\n\t}', '\tif !o.Merge && len(b) > 0 {\n\t\tReset(m.Interface())\n\t}'),
+ ('c15-reset-keeps-unknown', 'proto/reset.go',
+  '\t// Clear unknown fields.\n\tm.SetUnknown(nil)\n', '\t// Clear unknown fields.\n\tif len(m.GetUnknown()) > 64 {\n\t\tm.SetUnknown(nil)\n\t}\n'),
+ ('c15-reset-keeps-extensions', 'proto/reset.go',
+  '\tm.Range(func(fd protoreflect.FieldDescriptor, _ protoreflect.Value) bool {\n\t\tm.Clear(fd)\n\t\treturn true\n\t})', '\tm.Range(func(fd protoreflect.FieldDescriptor, _ protoreflect.Value) bool {\n\t\tif !fd.IsExtension() || fd.IsList() {\n\t\t\tm.Clear(fd)\n\t\t}\n\t\treturn true\n\t})'),
  # ---- C27
  ('c27-eof-inside-size', 'encoding/protodelim/protodelim.go',
   'if err == io.EOF && i != 0 {', 'if err == io.EOF && i < 0 {'),
